@@ -224,8 +224,22 @@ func (e *Exec) intrinsicBig(name string, fn *ssa.Function, args []Value) (Value,
 		if yc, ok := y.isConst(); !ok || yc.Sign() <= 0 {
 			e.unsupported("DivMod by non-constant or non-positive")
 		}
-		q := &BigVal{Mode: "int", T: smt.IntBin(smt.OIntDiv, x.T, y.T), MaxBytes: x.MaxBytes}
-		m := &BigVal{Mode: "int", T: smt.IntBin(smt.OIntMod, x.T, y.T), MaxBytes: y.MaxBytes}
+		var q, m *BigVal
+		if _, ok := x.isConst(); ok {
+			q = &BigVal{Mode: "int", T: smt.IntBin(smt.OIntDiv, x.T, y.T), MaxBytes: x.MaxBytes}
+			m = &BigVal{Mode: "int", T: smt.IntBin(smt.OIntMod, x.T, y.T), MaxBytes: y.MaxBytes}
+		} else {
+			// linear characterisation (Euclidean division by a positive constant):
+			// x = y*q + r, 0 <= r < y  -- keeps the query in linear integer arithmetic
+			e.fresh++
+			qt := smt.Var(fmt.Sprintf("divq_%d", e.fresh), smt.Int)
+			rt := smt.Var(fmt.Sprintf("divr_%d", e.fresh), smt.Int)
+			e.pc = append(e.pc,
+				smt.Eq(x.T, smt.IntBin(smt.OIntAdd, smt.IntBin(smt.OIntMul, y.T, qt), rt)),
+				smt.IntCmp(smt.OIntLe, smt.IntC(0), rt), smt.IntCmp(smt.OIntLt, rt, y.T))
+			q = &BigVal{Mode: "int", T: qt, MaxBytes: x.MaxBytes}
+			m = &BigVal{Mode: "int", T: rt, MaxBytes: y.MaxBytes}
+		}
 		e.setBig(args[3], m)
 		e.setBig(args[0], q)
 		return Tuple{args[0], args[3]}, true
